@@ -951,6 +951,10 @@ def attribute(target, ex, inst, prep, kind, bank, r):
                         responsible, or the varied instance cannot be built or faults): nothing is reported from this instance."""
     here = [s for s in prep["slots"] if (s[1], s[2]) == (bank, r)]
     if not here:
+        if isinstance(r, int) and 8 <= r <= 15 and any((s[1], s[2]) == (bank, r - 8) for s in prep["slots"]) and "rvc" in getattr(target, "name", "rvc"):
+            # the 3-bit compressed register field stores num-8: an operand x0..x7 silently encodes x8..x15 (one root cause,
+            # reported once per class, not once per register; C08 reports the same defect as riscv:rvc/creg3-field/accepts-x0-x7)
+            return "creg3-field-wrap"
         return "implicit-" + prep["regname"](bank, r)
     responsible, undecided = [], 0
     for s in here:
